@@ -644,6 +644,56 @@ func (e *Engine) LockingFunctions() []*ssa.Function {
 	return out
 }
 
+// GuardedAccessFunctions lists in-module functions that touch a field declared `guarded[...]`.
+func (e *Engine) GuardedAccessFunctions(prop string) []*ssa.Function {
+	type key struct{ typ, field string }
+	decl := map[key]bool{}
+	for _, pc := range e.contracts {
+		for _, g := range pc.Guarded {
+			if !hasProp(g.Props, prop) {
+				continue
+			}
+			for _, f := range g.Fields {
+				decl[key{pc.PkgPath + "." + g.Type, f}] = true
+			}
+		}
+	}
+	var out []*ssa.Function
+	for f := range e.allFuncs {
+		if !e.inModule(f) || len(f.Blocks) == 0 || f.Synthetic != "" {
+			continue
+		}
+		if p := pkgOf(f); p == nil || strings.Contains(p.Pkg.Path(), "/examples/") || strings.HasSuffix(p.Pkg.Path(), "mock") {
+			continue
+		}
+		found := false
+		for _, b := range f.Blocks {
+			for _, in := range b.Instrs {
+				fa, ok := in.(*ssa.FieldAddr)
+				if !ok {
+					continue
+				}
+				n := namedOf(fa.X.Type())
+				if n == nil || n.Obj().Pkg() == nil {
+					continue
+				}
+				st, ok := n.Underlying().(*types.Struct)
+				if !ok {
+					continue
+				}
+				if decl[key{n.Obj().Pkg().Path() + "." + n.Obj().Name(), st.Field(fa.Field).Name()}] {
+					found = true
+				}
+			}
+		}
+		if found {
+			out = append(out, f)
+		}
+	}
+	sort.Slice(out, func(i, j int) bool { return out[i].String() < out[j].String() })
+	return out
+}
+
 // ---------------------------------------------------------------- selection
 
 // FunctionsFor returns the functions whose contracts carry clauses for prop.
